@@ -15,6 +15,7 @@ Shapes outside the recognised ones raise TranslationError (handled like a broken
 """
 from __future__ import annotations
 import ast
+import copy
 from typing import List
 
 from .py2lean import TranslationError, find_func, find_class, strip_doc, is_logger_call, lean_str, lean_list
@@ -270,6 +271,53 @@ def tr_parent_iter(ev: ast.Module) -> str:
     return f"def parentIterSelfFirst : Bool := {lean_bool(ok)}\n"
 
 
+def inline_helpers(ev: ast.Module, fn: ast.FunctionDef) -> str:
+    """the source of `fn` with one level of calls to module-level helper functions followed by meaning: every call
+    `h(args)` of a module-level `def h(params)` whose body is a single `return <expr>` is replaced by <expr> with the
+    parameters substituted by the argument expressions (arguments must be plain names or constants, so that
+    substitution cannot duplicate or reorder effects; anything else is left as the call, i.e. not recognised)."""
+    helpers = {n.name: n for n in ev.body if isinstance(n, ast.FunctionDef)}
+
+    class Subst(ast.NodeTransformer):
+        def __init__(self, m):
+            self.m = m
+
+        def visit_Name(self, node):
+            return copy.deepcopy(self.m[node.id]) if node.id in self.m and isinstance(node.ctx, ast.Load) else node
+
+    class Inline(ast.NodeTransformer):
+        def visit_Call(self, node):
+            self.generic_visit(node)
+            h = helpers.get(node.func.id) if isinstance(node.func, ast.Name) else None
+            if h is None or h is fn:
+                return node
+            body = body_of(h)
+            a = h.args
+            if len(body) != 1 or not isinstance(body[0], ast.Return) or body[0].value is None:
+                return node
+            if a.vararg or a.kwarg or a.posonlyargs or a.kwonlyargs or a.defaults:
+                return node
+            params = [x.arg for x in a.args]
+            m = {}
+            if len(node.args) > len(params) or any(isinstance(x, ast.Starred) for x in node.args):
+                return node
+            for prm, arg in zip(params, node.args):
+                m[prm] = arg
+            for kw in node.keywords:
+                if kw.arg is None or kw.arg not in params or kw.arg in m:
+                    return node
+                m[kw.arg] = kw.value
+            if set(m) != set(params) or not all(isinstance(v, (ast.Name, ast.Constant)) for v in m.values()):
+                return node
+            # names bound inside the helper's expression (comprehension targets) must not capture an argument
+            bound = {t.id for t in ast.walk(body[0].value) if isinstance(t, ast.Name) and isinstance(t.ctx, ast.Store)}
+            if bound & {v.id for v in m.values() if isinstance(v, ast.Name)}:
+                return node
+            return Subst(m).visit(copy.deepcopy(body[0].value))
+
+    return ast.unparse(Inline().visit(copy.deepcopy(fn)))
+
+
 def tr_activation(ev: ast.Module) -> str:
     act = find_class(ev, "Activation")
     out = []
@@ -290,7 +338,7 @@ def tr_activation(ev: ast.Module) -> str:
     out.append(f"def macroBodyBindsIdentifier : Bool := {lean_bool(bm.count('nested_eval = self.sub_evaluator(ast=expr_tree)') == 2 and bm.count('nested_eval.evaluate({identifier: v})') == 2)}")
     ok = True
     for fname in ("macro_map", "macro_filter", "macro_exists_one", "macro_exists", "macro_all"):
-        src = ast.unparse(find_func(ev.body, fname))
+        src = inline_helpers(ev, find_func(ev.body, fname))
         ok = ok and "activation.nested_activation(vars={bind_variable: cast(Result, " in src
     out.append(f"def compiledMacrosUseNestedActivation : Bool := {lean_bool(ok)}")
     md = ast.unparse(find_func(evc.body, "member_dot"))
